@@ -37,7 +37,7 @@ ASSUMPTIONS = [
     "a field value 'changes' when it is replaced by another object that is not an equal value of the same type; node-valued fields must keep the identical object",
     "registry membership may change only as specified for detach / replace (C03's subject) and is not part of the frame",
 ]
-MUST_SEE = ["init_false_child_fields", "registry_membership_checked", "tagless_payload_read_while_alive", "origin_algebra_on_node_origins", "comparisons_with_equal_but_distinct_origin_objects", "compiled_xpath_reused", "mutable_container_in_property", "list_valued_tuple_fields", "hash_churn_rounds", "copy_protocol_ops", "digest_size_switches", "ops", "frames_checked", "raising_ops", "watched_writes_on_new_nodes", "setattr_rejected", "delattr_rejected", "repo_tests_contract_evaluations", "deserialize_registry_hits", "failing_replace_on_suffix_twin", "transform_returns_existing_node", "transform_rebuilds_equal_node"]
+MUST_SEE = ["equal_node_of_redefined_class_constructed", "one_byte_ids", "replace_with_child_field_changes", "membership_checked_around_detach_or_replace", "init_false_child_fields", "registry_membership_checked", "tagless_payload_read_while_alive", "origin_algebra_on_node_origins", "comparisons_with_equal_but_distinct_origin_objects", "compiled_xpath_reused", "mutable_container_in_property", "list_valued_tuple_fields", "hash_churn_rounds", "copy_protocol_ops", "digest_size_switches", "ops", "frames_checked", "raising_ops", "watched_writes_on_new_nodes", "setattr_rejected", "delattr_rejected", "repo_tests_contract_evaluations", "deserialize_registry_hits", "failing_replace_on_suffix_twin", "transform_returns_existing_node", "transform_rebuilds_equal_node"]
 CONFIG = {
     "quick": {"shards": 16, "histories": 30, "ops": 35, "watchdog_s": 600},
     "thorough": {"shards": 32, "histories": 200, "ops": 60, "watchdog_s": 3400},
@@ -49,6 +49,9 @@ class Boom(Exception):
 
 
 COMPILED_XPATHS: dict = {}
+
+
+REDEF_COUNTER = [0]
 
 
 def _deep(v):
@@ -417,6 +420,28 @@ def histories(ctx, U, state, take_frame, diff_frame):
             if pf and rng.random() < 0.6:
                 f = rng.choice(pf)
                 ch = {f.name: G.gen_value(rng, U, f, hostile=0.0)}
+            def swappable(x):
+                return [f for f in U.child_fields(type(x).__name__) if f.shape in ("one", "opt", "tuple") and f.init]
+
+            withkids = [x for x in nodes() if swappable(x) and list(x.get_child_nodes())]
+            if withkids and rng.random() < 0.4:
+                # replace() of an inner node with a child field among the changes (what a transform via
+                # node.replace(**changes) does): the kept children and the swapped-out child stay registered
+                n = rng.choice(withkids)
+                f = rng.choice(swappable(n))
+                cur = getattr(n, f.name)
+                Leaf = U.cls[f"{P}Leaf"]
+                fits = any(issubclass(Leaf, U.cls[t]) for t in f.types if t in U.cls)
+                fresh = Leaf(v=rng.randrange(10**6), s="swapped-in") if fits else None
+                if f.shape == "tuple":
+                    cur = tuple(cur)
+                    val = (cur[1:] + (fresh,) if rng.random() < 0.5 else (fresh,) + cur) if fits else tuple(reversed(cur))
+                else:
+                    val = fresh if fits else cur
+                ch = {f.name: val}
+                ctx.count("replace_with_child_field_changes")
+            state["exempt"] = {id(n)}
+            state["membership_may_change"] = False
             handles.append(n.replace(**ch) if rng.random() < 0.6 else dataclasses.replace(n, **ch))
 
         def op_replace_fail():
@@ -427,6 +452,7 @@ def histories(ctx, U, state, take_frame, diff_frame):
             if "_" in n.id and ASTNode.get_any(n.id.rsplit("_", 1)[0]) is None:
                 ctx.count("failing_replace_on_suffix_twin")
             how = rng.choice(["TypeError", "ValueError", "InvalidTypes"])
+            state["membership_may_change"] = False  # a failing replace puts the receiver back
             try:
                 if how == "TypeError":
                     n.replace(no_such_field=1)
@@ -443,9 +469,12 @@ def histories(ctx, U, state, take_frame, diff_frame):
 
         def op_detach():
             n = rng.choice(nodes())
+            state["membership_may_change"] = False
             if rng.random() < 0.5:
+                state["exempt"] = set(id(x) for x in reachable(U, [n]).values())
                 n.detach()
             else:
+                state["exempt"] = {id(n)}
                 n.detach_self()
 
         def op_twins():
@@ -453,6 +482,7 @@ def histories(ctx, U, state, take_frame, diff_frame):
             a = U.cls[f"{P}Leaf"](v=77, s="tw")
             b = U.cls[f"{P}Leaf"](v=77, s="tw")
             handles.append(b)
+            state["membership_may_change"] = False
             a.detach_self()
 
         def op_serialize():
@@ -546,6 +576,7 @@ def histories(ctx, U, state, take_frame, diff_frame):
                 if kids:
                     k = rng.choice(kids)
                     snap_extra[id(k)] = (k, tuple((f.name, getattr(k, f.name), None) for f in dataclasses.fields(k)), k.id, k.content_id, hash(k))
+                    state["exempt"] = {id(k)}
                     k.detach_self()
                 copy.deepcopy(h)
 
@@ -578,15 +609,58 @@ def histories(ctx, U, state, take_frame, diff_frame):
             config.ID_DIGEST_SIZE = rng.choice([s_ for s_ in (4, 8, 16) if s_ != config.ID_DIGEST_SIZE])
             ctx.count("digest_size_switches")
 
-        ops = [op_config, op_copy, op_list_valued, op_origin_algebra, op_compare_twins_with_distinct_origin_objects, op_traverse, op_tree, op_xpath, op_pattern, op_visit, op_duplicate, op_replace_ok, op_replace_fail, op_detach, op_twins, op_serialize, op_serialize, op_compare, op_rich]
+        redef = {}
+
+        def op_construct_redefined_class():
+            # a node class defined a second time under the same name (a re-run model cell) while a node of the first
+            # definition is alive: constructing the equal node of the new class is a construction like any other
+            if "a" not in redef:
+                return
+            old_c, new_c, leaf_c = redef["classes"]
+            a = redef["a"]
+            ctx.count("equal_node_of_redefined_class_constructed")
+            b = new_c(first=a.first, v=a.v, origin=a.origin)
+            redef.setdefault("made", []).append(b)
+            del redef["made"][:-3]
+
+        def op_tiny_digest():
+            # ids one byte wide: nodes of different classes run into each other's ids
+            was = config.ID_DIGEST_SIZE
+            config.ID_DIGEST_SIZE = 1
+            try:
+                made = []
+                for i in range(60):
+                    c = rng.choice([f"{P}Leaf", f"{P}Name", f"{P}Un", f"{P}List"])
+                    if c == f"{P}Leaf":
+                        made.append(U.cls[c](v=i))
+                    elif c == f"{P}Name":
+                        made.append(U.cls[c](tag=f"n{i}", v=i))
+                    elif c == f"{P}Un":
+                        made.append(U.cls[c](child=made[-1] if made and isinstance(made[-1], U.cls[f"{P}Expr"]) else U.cls[f"{P}Leaf"](v=-i)))
+                    else:
+                        made.append(U.cls[c](origin=O.build_origin(("gen", i % 3)), label=str(i)))
+                ctx.count("one_byte_ids")
+                handles.extend(made[:2])
+            finally:
+                config.ID_DIGEST_SIZE = was
+
+        ops = [op_construct_redefined_class, op_tiny_digest, op_config, op_copy, op_list_valued, op_origin_algebra, op_compare_twins_with_distinct_origin_objects, op_traverse, op_tree, op_xpath, op_pattern, op_visit, op_duplicate, op_replace_ok, op_replace_fail, op_detach, op_twins, op_serialize, op_serialize, op_compare, op_rich]
         snap_extra = {}
+        if case % 2 == 0:
+            from vlib.universe import remodelled_class
+
+            REDEF_COUNTER[0] += 1
+            redef["classes"] = remodelled_class(U, f"C10n{REDEF_COUNTER[0]}")
+            redef["a"] = redef["classes"][0](first=redef["classes"][2](v=case), v=case % 5, origin=O.build_origin(O.gen_origin(rng)))
         for step in range(ctx.params["ops"]):
             op = rng.choice(ops)
             snap_extra.clear()
             snap = take_frame(U, handles)
             state["pre"] = set(snap)
             # registry membership of every pre-existing node: only detach / replace (and the harness' own detaching) may change it
-            state["membership_may_change"] = op.__name__ in ("op_detach", "op_replace_ok", "op_replace_fail", "op_twins", "op_copy")
+            # (the ops narrow this themselves: exempt = the nodes whose membership the operation is specified to change)
+            state["membership_may_change"] = op.__name__ in ("op_detach", "op_replace_ok", "op_replace_fail", "op_twins")
+            state["exempt"] = set()
             member = {k: (ASTNode.get_any(v[0].id) is v[0]) for k, v in snap.items()}
             del state["hits"][:]
             raised = None
@@ -606,11 +680,13 @@ def histories(ctx, U, state, take_frame, diff_frame):
                 ctx.sample({"operation": op.__name__, "pre_existing_nodes": len(snap), "raised": raised})
             snap.update(snap_extra)
             d = diff_frame(snap)
-            if not d and not state["membership_may_change"] and raised is None:
+            if not d and not state["membership_may_change"] and (raised is None or op.__name__ == "op_replace_fail"):
                 ctx.count("registry_membership_checked")
-                lost = [type(v[0]).__name__ for k, v in snap.items() if member.get(k) and ASTNode.get_any(v[0].id) is not v[0]]
+                if state["exempt"]:
+                    ctx.count("membership_checked_around_detach_or_replace")
+                lost = [type(v[0]).__name__ for k, v in snap.items() if k not in state["exempt"] and member.get(k) and ASTNode.get_any(v[0].id) is not v[0]]
                 if lost:
-                    d = f"{len(lost)} pre-existing node(s) ({', '.join(sorted(set(lost))[:4])}) are no longer returned by lookup under their id, although the operation is neither detach nor replace"
+                    d = f"{len(lost)} pre-existing node(s) ({', '.join(sorted(set(lost))[:4])}) are no longer returned by lookup under their id, although the operation is not specified to change their registry membership"
             if d:
                 ctx.violation("frame", f"{op.__name__} modified a pre-existing node: {d}", {"operation": op.__name__, "raised": raised, "log": log[-10:]})
                 break
